@@ -705,6 +705,8 @@ impl DtlsInner {
                     // or overtaken - has to wait for it: adopting that message's message_seq as
                     // the new expectation skipped the ServerHello and failed the handshake.
                     if ctx.post_hvr && is_client && msg.msg_type != HandshakeType::ServerHello {
+                        #[cfg(rustrtc_verif)]
+                        self.vhs(&msg, "wait", ctx);
                         continue;
                     }
 
